@@ -297,3 +297,46 @@ M("f3-reverted-effect", "C12", CU, "        if hide_line:\n            frame.hid
 M("reg5-prune-dead", "C12", CU, "        return PRUNE if prune else None", "        return None", "REG-5")
 M("reg5-hide-wrong-field", "C12", CU, "        if hide:\n            frame.hide = True", "        if hide:\n            frame.hide_line = True", "REG-5")
 M("reg5-elaborate-swallowed", "C12", CU, "            if replacement is not None:  # pragma: no branch\n                return replacement\n", "", "REG-5")
+
+# ---------------------------------------------------------------- C06
+M("esc1-frame-cache", "C06", L311, "def inspect_frame(frame: FrameType) -> FrameDetails:\n    assert sys.implementation.name", "_cache: dict = {}\n\n\ndef inspect_frame(frame: FrameType) -> FrameDetails:\n    _cache[id(frame)] = frame\n    assert sys.implementation.name", "ESC-1")
+M("esc1-context-cache", "C06", LL, "    with_block_info = analyze_with_blocks(frame.f_code)\n    frame_details = inspect_frame(frame)", "    with_block_info = analyze_with_blocks(frame.f_code)\n    frame_details = inspect_frame(frame)\n    _last_details.append(frame_details)", "ESC-1",
+  extra=[("_can_use_trickery: Optional[bool] = None\n", "_can_use_trickery: Optional[bool] = None\n_last_details: list = []\n")])
+M("esc1-lru-cache", "C06", LL, "def analyze_with_blocks(code: types.CodeType) -> Dict[int, Context]:", "import functools\n\n\n@functools.lru_cache(maxsize=None)\ndef contexts_cached(frame: types.FrameType) -> List[Context]:\n    return _contexts_active_by_trickery(frame)\n\n\ndef analyze_with_blocks(code: types.CodeType) -> Dict[int, Context]:", "ESC-1")
+M("esc1-global-last", "C06", EX, "    errors: List[Exception] = []\n    it = extract_iter(stackitem, errors)\n    frames = []", "    global _last_item\n    _last_item = stackitem\n    errors: List[Exception] = []\n    it = extract_iter(stackitem, errors)\n    frames = []", "ESC-1")
+M("esc1-hook-closure-cache", "C06", GL, "    @unwrap_stackitem.register(lowlevel.Task)\n    def unwrap_task(task: lowlevel.Task) -> Any:\n        return task.coro", "    seen_tasks: List[Any] = []\n\n    @unwrap_stackitem.register(lowlevel.Task)\n    def unwrap_task(task: lowlevel.Task) -> Any:\n        seen_tasks.append(task)\n        return task.coro", "ESC-1")
+M("esc2-close-target", "C06", GL, "        if gen.gi_running:\n            return StackSlice(outer=gen.gi_frame)", "        if gen.gi_running:\n            return StackSlice(outer=gen.gi_frame)\n        if gen.gi_frame is None:\n            gen.close()", "ESC-2")
+M("esc2-next-unguarded", "C06", EX, "            if isinstance(unwrapped, FrameIterator):\n                it = unwrapped", "            if hasattr(unwrapped, '__next__'):\n                it = unwrapped", "ESC-2")
+M("esc2-iterate-any", "C06", EX, "            if isinstance(unwrapped, collections.abc.Sequence):\n                rev_items = reversed(unwrapped)", "            if isinstance(unwrapped, collections.abc.Iterable):\n                rev_items = reversed(list(unwrapped))", "ESC-2", accept_analysis_error=True)
+M("esc3-aclose-deleted", "C06", GL, "    try:\n        # Clean up the asyncgen so it doesn't confuse any finalization hooks\n        agen.aclose().send(None)  # type: ignore\n    except (StopIteration, StopAsyncIteration):\n        pass\n", "", "ESC-3")
+M("esc3-coro-close-deleted", "C06", GL, "    coro_wrapper_type = type(coro.__await__())\n    coro.close()\n", "    coro_wrapper_type = type(coro.__await__())\n", "ESC-3")
+M("esc3-asend-close-deleted", "C06", GL, "    asend_coro.close()\n", "", "ESC-3")
+M("null1-no-handler", "C06", L311, "                    try:\n                        # Read the PyObject* from memory and take a reference to it,\n                        # in one atomic operation\n                        obj = stack_ptr[i]\n                    except ValueError:\n                        # ctypes raises this if a PyObject* is NULL. We'll record\n                        # those as None.\n                        obj = None\n",
+  "                    obj = stack_ptr[i]\n", "NULL-1")
+M("null1-310-unguarded", "C06", L310, "None if address == 0 else ctypes.cast(address, ctypes.py_object).value", "ctypes.cast(address, ctypes.py_object).value", "NULL-1")
+T("twin-esc1-code-cache", "C06", LL, "def analyze_with_blocks(code: types.CodeType) -> Dict[int, Context]:", "_seen_codes: dict = {}\n\n\ndef note_code(frame: types.FrameType) -> None:\n    _seen_codes[id(frame.f_code)] = frame.f_code\n\n\ndef analyze_with_blocks(code: types.CodeType) -> Dict[int, Context]:")
+T("twin-esc1-counter", "C06", EX, "    errors: List[Exception] = []\n    it = extract_iter(stackitem, errors)\n    frames = []", "    global _n_extractions\n    _n_extractions = 1\n    errors: List[Exception] = []\n    it = extract_iter(stackitem, errors)\n    frames = []")
+
+# ---------------------------------------------------------------- C07
+M("snap1-read-before-loop", "C07", L311, "    from ._lowlevel import _parse_exception_table\n", "    from ._lowlevel import _parse_exception_table\n    owner_early = frame_raw.f_frame.contents.owner\n", "SNAP-1")
+M("snap3-loop-recheck-deleted", "C07", L311, "                    # pinned on the thread stack if it was before, because\n                    # finishing execution would change lasti.\n                    assert frame.f_lasti == lasti_before\n", "                    # pinned on the thread stack if it was before, because\n                    # finishing execution would change lasti.\n", "SNAP-3")
+M("snap3-final-recheck-deleted", "C07", L311, "                    details.stack.append(obj)\n\n            assert frame.f_lasti == lasti_before\n", "                    details.stack.append(obj)\n", "SNAP-3")
+M("snap3-recheck-wrong-token", "C07", L311, "                    # finishing execution would change lasti.\n                    assert frame.f_lasti == lasti_before\n", "                    # finishing execution would change lasti.\n                    assert frame.f_lasti >= 0\n", "SNAP-3")
+M("snap4-handler-disabled", "C07", L311, "        except AssertionError:\n            if frame.f_lasti == lasti_before:\n                raise\n", "        except KeyError:\n            if frame.f_lasti == lasti_before:\n                raise\n", "SNAP-4")
+M("snap4-continue-deleted", "C07", L311, "            # otherwise this was probably a concurrent modification, try again\n            continue\n", "            # otherwise this was probably a concurrent modification, try again\n", "SNAP-4")
+M("snap5-else-accepts", "C07", L311, '''    else:
+        raise RuntimeError(
+            "Could not obtain a consistent stack snapshot. Probably this frame "
+            "is running in another thread and is too complex for us to scan the "
+            "stack before we get preempted."
+        )
+''', "    else:\n        lasti = frame.f_lasti\n", "SNAP-5")
+M("snap5-unbounded", "C07", L311, "    for _ in range(10):\n        lasti_before = frame.f_lasti", "    for _ in iter(int, 1):\n        lasti_before = frame.f_lasti", "SNAP-5", accept_analysis_error=True)
+M("snap2-sample-after", "C07", L311, "        lasti_before = frame.f_lasti\n        for start, end, _, depth, _ in _parse_exception_table(co):", "        for start, end, _, depth, _ in _parse_exception_table(co):", ["SNAP-2"], accept_analysis_error=True)
+M("thr1-was-alive-dropped", "C07", GL, "if inner_frame is None or not thread.is_alive() or not was_alive:", "if inner_frame is None or not thread.is_alive():", "THR-1")
+M("thr1-alive-after-dropped", "C07", GL, "if inner_frame is None or not thread.is_alive() or not was_alive:", "if inner_frame is None or not was_alive:", "THR-1")
+M("thr1-none-dropped", "C07", GL, "if inner_frame is None or not thread.is_alive() or not was_alive:", "if not thread.is_alive() or not was_alive:", "THR-1")
+M("thr1-and", "C07", GL, "if inner_frame is None or not thread.is_alive() or not was_alive:", "if inner_frame is None or not thread.is_alive() and not was_alive:", "THR-1")
+M("thr1-sample-order", "C07", GL, "        was_alive = thread.is_alive()\n        inner_frame = sys._current_frames().get(thread.ident)  # type: ignore\n", "        inner_frame = sys._current_frames().get(thread.ident)  # type: ignore\n        was_alive = thread.is_alive()\n", "THR-1")
+T("twin-thr1-demorgan", "C07", GL, "if inner_frame is None or not thread.is_alive() or not was_alive:", "if not (inner_frame is not None and thread.is_alive() and was_alive):")
+T("twin-snap3-first-recheck-deleted", "C07", L311, "                ctypes.addressof(iframe_raw) + stack_start_offset\n            )\n            assert frame.f_lasti == lasti_before\n", "                ctypes.addressof(iframe_raw) + stack_start_offset\n            )\n")
